@@ -88,7 +88,7 @@ def check_events(sched, rec, judge_unserialisable_exception_object=True):
     tail = [e for e in app if e in tail_names]
     want_tail = ['method_exception_document', 'method_exception_string'] if want_fault else \
         ['method_return_document', 'method_return_string']
-    if tail != want_tail and not (skip_eo and not wsgi):
+    if tail != want_tail:
         pr.append('document/string events %r, expected %r' % (tail, want_tail))
     if want_fault and neo == 1 and tail == want_tail and 'method_exception_object' in app:
         if app.index('method_exception_object') > app.index('method_exception_document'):
